@@ -37,6 +37,8 @@ THEOREMS = [
     "MCHap.C02.mh_db",
     "MCHap.C02.call_compound_step_invariant",
     "MCHap.C02.call_sampler_invariant",
+    "MCHap.C02.compoundStep_perm_choices",
+    "MCHap.C02.compoundWrites_getD_mem",
 ]
 RULE = ("cases: random known-haplotype sets (1..6 haplotypes over 1..4 SNVs, shared and unique SNV patterns), ploidy 1..6, "
         "frequencies {None, flat array, skewed, with zero entries, tiny (1e-3..1e-12)}, inbreeding {0,.01,.25,.5,.9}, reads with gaps/counts "
@@ -116,7 +118,7 @@ def n_perms(alleles):
     return out
 
 
-def wiring(chk, r, n):
+def wiring(chk, r, n, drv):
     """what the call sampler's layers hand to each other.  The Python source of `compound_step`, `mcmc_sampler` and
     `CallingMCMC.fit` is run with its callee replaced by a recorder: the kernels are verified on arguments the harness
     chooses, so it remains to see that the callers hand over the sample's own reads / counts / inbreeding / frequencies /
@@ -131,6 +133,7 @@ def wiring(chk, r, n):
         a, b = np.asarray(a), np.asarray(b)
         return a.shape == b.shape and bool(np.array_equal(a, b, equal_nan=(a.dtype.kind == "f")))
 
+    model_reqs = []
     for it in range(n):
         n_alleles, haps, ploidy, kind, freqs, F, alleles, reads, counts = gen_call_instance(r, max_haps=6)
         if len(haps) < 2:
@@ -216,6 +219,11 @@ def wiring(chk, r, n):
                     bad = "the genotype is not sorted after the compound step"
                 elif not (1000.0 <= float(ret) < 1000.0 + n_h and int(round(float(ret) - 1000.0)) in geno.tolist()):
                     bad = "the value returned is not the kernel's likelihood entry of an allele now in the genotype"
+        if not bad and len(calls) == ploidy:
+            # the model of the step (compoundStep: the writes in the order of the shuffle, then the sort) on the same order and draws
+            draws = [int(calls[j + 1][2][slots[j]]) for j in range(ploidy - 1)] + [int(round(float(ret) - 1000.0))]
+            model_reqs.append(("call.compound %d " % ploidy + " ".join(str(int(x)) for x in list(before) + slots + draws),
+                               geno.tolist(), {**case, "order": slots, "draws": draws, "before": before.tolist()}))
         if bad:
             # how the arrays travel (in place or by copy, one kernel call per copy) is the structure this stream observes the
             # code through, not the property: a difference there is a broken correspondence; wrong values are violations
@@ -370,6 +378,12 @@ def wiring(chk, r, n):
                     bad = "the trace does not hold what the chains returned, chain by chain"
         if bad:
             chk.violation("CallingMCMC.fit: " + bad, {**case, "chains": n_chains, "initial_given": given}, "C02/wiring/fit")
+    for (req, impl, case_), a in zip(model_reqs, drv.ask([q for q, _, _ in model_reqs])):
+        chk.count("wiring:compound_step-vs-model")
+        chk.case(req, len(impl) >= 2)
+        if a != " ".join(str(x) for x in impl):
+            chk.disagreement("compound_step: the genotype after the step != model compoundStep on the same order and draws",
+                             {**case_, "impl": impl, "model": a})
 
 
 def run(tier, replay=None):
@@ -660,7 +674,7 @@ def run(tier, replay=None):
                                   {**extra, "key": bad[0], "genotype_of_key": bad[1], "cached": bad[2]}, "C02/compound/cache-entry")
 
     lap("compound_step")
-    wiring(chk, C.rng(PROP + ":wiring"), {"warm": 2, "quick": 40, "thorough": 400}[tier])
+    wiring(chk, C.rng(PROP + ":wiring"), {"warm": 2, "quick": 40, "thorough": 400}[tier], drv)
     lap("wiring")
     # ---------------- mcmc_sampler as CallingMCMC.fit runs it: initial state from greedy_caller (int32), cache on, a short trace;
     # every recorded state is sorted, within the panel, of positive prior, and its recorded llk is its likelihood
